@@ -63,10 +63,6 @@ func locOfRange(r lib.Range) string {
 	return fmt.Sprintf("%d:%d:%d:%d", r.Start.Line+1, r.Start.Character, r.End.Line+1, r.End.Character)
 }
 
-var c05Known = map[byte][2]string{
-	'I': {"C05-K1", "go-to-definition on a name used inside the declaring statement of a same-named local / loop variable ('local x = x + 1', 'local a, b = 1, a', 'for i = i, n') returns that new variable although its scope has not begun (the position test only exempts initialisers that are a bare name, a call or a function)"},
-	'R': {"C05-K2", "a local declared without a value and later assigned 'v = f(v)' / 'v = v' / a function mentioning v: go-to-definition on the v inside that expression finds nothing (ReferExp is re-pointed to the assigned expression and the position test then excludes it)"},
-}
 
 func runC05(res *lib.Result, tier string, seed int64, args []string) error {
 	nProg := 120
@@ -152,13 +148,6 @@ func runC05(res *lib.Result, tier string, seed int64, args []string) error {
 				}
 				res.Count(fmt.Sprintf("%d/%d:%d", pi, o.sl, col), o.s != "G")
 				res.Dist("occ." + o.kind)
-				cls := ""
-				if end < len(o.class) {
-					cls = o.class[end : end+1]
-				}
-				if len(o.class) == 1 {
-					cls = o.class
-				}
 				// global write sites of this name (targets of assignments / function statements bound to no local)
 				isGlobalSite := func(loc string) bool {
 					for _, w := range occs {
@@ -187,19 +176,16 @@ func runC05(res *lib.Result, tier string, seed int64, args []string) error {
 					}
 				}
 				if !okModel {
-					failing := impl != o.s && cls == "" && !(o.s == "G" && (impl == "-" || isGlobalSite(impl)))
+					failing := impl != o.s && !(o.s == "G" && (impl == "-" || isGlobalSite(impl)))
 					res.AddViolation("impl-vs-model", fmt.Sprintf("definition answers %s, the resolver model predicts %s, Lua scoping (S-bind) says %s", impl, m, o.s), caseText, !failing)
 					continue
 				}
 				// model = implementation; against the spec
 				specOK := (o.s == "G" && m == "-") || (o.s != "G" && impl == o.s)
 				if !specOK {
-					if kf, ok := c05Known[firstByte(cls)]; ok {
-						res.HitKnown(kf[0], kf[1], caseText)
-						res.Dist("hit." + kf[0])
-					} else {
-						res.AddViolation("impl-vs-spec", fmt.Sprintf("definition answers %s but Lua scoping binds the occurrence to %s (no finding class applies; model %s, class %q)", impl, o.s, m, o.class), caseText, false)
-					}
+					// the former classes C05-K1 / C05-K2 (inside the declaring statement; re-pointed ReferExp) were repaired
+					// (73bd950): the resolver model is proved equal to Lua's rule (Props/C05), nothing is excused any more
+					res.AddViolation("impl-vs-spec", fmt.Sprintf("definition answers %s but Lua scoping binds the occurrence to %s (model %s, former class %q)", impl, o.s, m, o.class), caseText, false)
 				}
 			}
 		}
